@@ -13,7 +13,7 @@ DEFAULTS = dict(
     p_eventless=0.25, p_internal=0.2, p_guard=0.6, min_trans=2, max_trans=14,
     p_send=0.25, p_state_send=0.08, p_notify=0.3, delays=(0, 0, 0, 0.125, 1, 1, 2, 5),
     contracts=False, p_contract=0.5, timed=False, timed_plain=0.0, mode=None, priorities=(-1, 0, 0, 0, 1, 2),
-    min_states=3, root_basic_ok=0.05, allow_inner_history=False, p_shared_text=0.0, p_active_call=0.0,
+    min_states=3, root_basic_ok=0.05, allow_inner_history=False, p_shared_text=0.0, p_active_call=0.0, p_twin=0.0,
 )
 
 
@@ -351,6 +351,15 @@ def _gen_transitions(rnd, ch, o):
                         ev = rnd.choice(ch['events'])
                         mk(p, None, ev=ev, guard=False)
                         mk(rnd.choice(kids), None, ev=ev, guard=rnd.random() < 0.5)
+        if trans and o['p_twin'] and rnd.random() < o['p_twin']:
+            # an exact twin: a second, separately declared transition equal to an existing one in every field (same code
+            # text as well: 'code_id').  Two transitions are two transitions, however alike they look.
+            import copy as _copy
+            b = rnd.choice(trans)
+            d = _copy.deepcopy(b)
+            d['id'] = 't%d' % len(trans)
+            d['code_id'] = b.get('code_id') or b['id']
+            trans.append(d)
     # (d) orth: shared events between regions
     if mode in ('orth', 'order'):
         orths = [n for n in order if st[n]['kind'] == 'orthogonal']
